@@ -210,7 +210,7 @@ class SFuture:
     """asyncio.Future (assumed contract, DESIGN 2.5): state 0 pending, 1 result,
     2 exception, 3 cancelled.  `result` / `exc` hold engine values."""
 
-    __slots__ = ("state", "result", "exc", "oid", "ghost", "callbacks")
+    __slots__ = ("state", "result", "exc", "oid", "ghost", "callbacks", "fresh_in_call")
 
     def __init__(self, state=0, result=None, exc=None, ghost=None):
         self.state = state if not isinstance(state, int) else z3.IntVal(state)
@@ -219,6 +219,7 @@ class SFuture:
         self.oid = next(_obj_ids)
         self.ghost = dict(ghost or {})
         self.callbacks = []
+        self.fresh_in_call = False
 
     def __repr__(self):
         return f"<Future#{self.oid} state={self.state}>"
